@@ -6,7 +6,7 @@ ROOT = os.path.dirname(os.path.dirname(os.path.abspath(__file__)))
 res = collections.OrderedDict()
 for f in sys.argv[1:]:
     for line in open(f):
-        m = re.match(r'^(C\d\d-[A-D]) vs (C\d\d): (\w+) \((\d+)s\) ?(.*)$', line.strip())
+        m = re.match(r'^(C\d\d-[A-F]) vs (C\d\d): (\w+) \((\d+)s\) ?(.*)$', line.strip())
         if m:
             res[(m.group(1), m.group(2))] = (m.group(3), int(m.group(4)), m.group(5))
 seeds = sorted(set(k[0] for k in res))
